@@ -80,6 +80,14 @@ func TestVerif_C08_Progress(t *testing.T) {
 			}
 		}
 	}
+	// a rollout that starts from a revision without any child (scaled to zero, then up again)
+	for _, method := range []string{"RollingInPlace", "RollingRecreate"} {
+		for _, fp := range []bool{false, true} {
+			for _, ed := range []string{"scale-up", "template+scale-up"} {
+				cases = append(cases, c08Case{Cfg: rolloutCfg{Kind: "Widget", Method: method, N: 0, FieldPaths: fp}, SecondEdit: -1, Edit: ed})
+			}
+		}
+	}
 	// cluster-scoped parents (the statement quantifies over them too)
 	for _, method := range []string{"RollingInPlace", "RollingRecreate"} {
 		cases = append(cases, c08Case{Cfg: rolloutCfg{Kind: "ClusterWidget", Method: method, N: 2, Cluster: true}, SecondEdit: -1})
@@ -103,6 +111,7 @@ func runC08(t *testing.T, c c08Case) {
 	rep.Begin("C08", id)
 	ro := newRollout(c.Cfg, id)
 	defer ro.close()
+	ro.r.w.prop = "C08"
 	if err := ro.r.w.start(); err != nil {
 		inconclusive(t, "C08", id, err)
 		return
